@@ -45,6 +45,9 @@ type Profile struct {
 	// RSFaults: probability that a replica-set create/delete issued by the ExtendedDaemonSet controller is
 	// rejected or applied with its answer lost
 	RSFaults float64
+	// ReadFaults: probability that a list issued by a controller (replica sets, settings, pods, nodes) is
+	// rejected; the reconcile has to give up rather than act on what it could not read
+	ReadFaults float64
 	// Burst: extra weight of back-to-back replica-set reconcile requests at +0 / +0.4s / freq-1s
 	Burst float64
 	// Nested: N-mode yield probability per API call (0 = atomic reconciles, schedule S)
@@ -229,14 +232,25 @@ func (e *Sim) Run(ctx *core.Ctx, idx int) {
 	for i := 0; i < nNodes; i++ {
 		w.AddNode(genNode(r, fmt.Sprintf("n%d", i)))
 	}
-	if e.P.PodFaults > 0 || e.P.EDSFaults > 0 || e.P.RSFaults > 0 {
+	if e.Prop == "C11" {
+		// C11 judges the safety rules of the other properties whatever fails in between
+		w.Mon.RemapSafetyTo = "C11"
+	}
+	if e.P.PodFaults > 0 || e.P.EDSFaults > 0 || e.P.RSFaults > 0 || e.P.ReadFaults > 0 {
 		fr := rand.New(rand.NewSource(r.Int63()))
-		pf, ef, rf := e.P.PodFaults, e.P.EDSFaults, e.P.RSFaults
+		pf, ef, rf, lf := e.P.PodFaults, e.P.EDSFaults, e.P.RSFaults, e.P.ReadFaults
 		w.S.Fault = func(c *simapi.Call) simapi.FaultKind {
 			if w.Coop || w.faultsSuspended > 0 {
 				return simapi.NoFault
 			}
+			if lf > 0 && c.Verb == "list" && strings.HasSuffix(c.Actor, "-controller") && fr.Float64() < lf {
+				return simapi.Reject
+			}
 			if c.Kind == simapi.KindPod && (c.Verb == "create" || c.Verb == "delete") && fr.Float64() < pf {
+				// refused, or carried out with the answer lost (the pod exists / is gone although the call failed)
+				if fr.Intn(3) == 0 {
+					return simapi.LostReply
+				}
 				return simapi.Reject
 			}
 			if c.Kind == simapi.KindERS && (c.Verb == "create" || c.Verb == "delete") && c.Actor == "eds-controller" && fr.Float64() < rf {
